@@ -465,7 +465,7 @@ func (u *UriValue) ToString(b io.Writer, s px.FormatContext, g px.RDetect) {
 func (u *UriValue) ToKey(b *bytes.Buffer) {
 	b.WriteByte(1)
 	b.WriteByte(HkUri)
-	b.Write([]byte(u.URL().String()))
+	appendKeyBytes(b, u.URL().String())
 }
 
 func (u *UriValue) PType() px.Type {
